@@ -259,7 +259,7 @@ def run(ctx):
             if fn.endswith(".json"):
                 groups.append(json.load(open(os.path.join(cdir, fn))))
     ops8 = ["c2y", "c2g", "c2r", "y2c", "g2c", "r2c", "y2g", "m1", "m2"]
-    nk = ctx.n(900, 12000)
+    nk = ctx.n(900, 7000)
     for i in range(nk):
         op = ops8[i % len(ops8)] if i < 3 * len(ops8) else rng.choice(ops8)
         bits = 8
@@ -268,9 +268,9 @@ def run(ctx):
         if op in ("c2r", "r2c") and rng.chance(1, 6):
             bits = 16
         groups.append(gen_kernel_group(rng, op, bits))
-    for i in range(ctx.n(800, 15000)):
+    for i in range(ctx.n(800, 8000)):
         groups.append(gen_api(rng, "enc", ctx.thorough()))
-    for i in range(ctx.n(800, 15000)):
+    for i in range(ctx.n(800, 8000)):
         groups.append(gen_api(rng, "dec", ctx.thorough()))
     return run_groups(ctx, groups, exes, drv, flavours)
 
